@@ -88,8 +88,10 @@ func streamNonce(c *ctx) {
 		default:
 			un[iana.HeaderParameterPartialIV] = c.r.bytes(pick(c.r, lens))
 		}
-		if c.r.intn(4) == 0 {
-			un[iana.HeaderParameterKid] = []byte("k")
+		if c.r.intn(3) == 0 {
+			// a parameter the nonce logic does not read, its label held in any Go integer type (a bucket a caller filled
+			// from decoded or typed values): the published nonce must still be in the message that goes out
+			un[pick(c.r, []any{iana.HeaderParameterKid, int64(iana.HeaderParameterKid), uint64(iana.HeaderParameterKid), uint(iana.HeaderParameterKid)})] = []byte("k")
 		}
 		draw := c.r.bytes(nsize)
 		rand.Reader = &counterReader{next: draw}
@@ -307,6 +309,8 @@ func streamNonce(c *ctx) {
 		per := c.n(2500, 40000)
 		ivs := make([][]string, 16)
 		var wg sync.WaitGroup
+		var panicMu sync.Mutex
+		panics := ""
 		for g := 0; g < 16; g++ {
 			wg.Add(1)
 			go func(g int) {
@@ -317,7 +321,16 @@ func streamNonce(c *ctx) {
 				}
 				for j := 0; j < per; j++ {
 					m := &cose.Encrypt0Message[[]byte]{Payload: []byte("p")}
-					if m.Encrypt(e, nil) != nil {
+					var eerr error
+					if p, pm := catch(func() { eerr = m.Encrypt(e, nil) }); p {
+						panicMu.Lock()
+						if panics == "" {
+							panics = pm
+						}
+						panicMu.Unlock()
+						return
+					}
+					if eerr != nil {
 						return
 					}
 					iv, _ := m.Unprotected.GetBytes(iana.HeaderParameterIV)
@@ -339,6 +352,9 @@ func streamNonce(c *ctx) {
 		}
 		c.evals += total
 		c.nontriv(fmt.Sprintf("fresh-parallel|%d", alg))
+		if panics != "" {
+			c.fail(failure{Op: "nonce", What: "Encrypt of a fresh message panics when 16 goroutines draw their nonces at the same time", Input: fmt.Sprintf("alg=%d goroutines=16 messages each=%d (no IV given)", alg, per), Observed: short(panics), Expected: "a fresh nonce for every message", Theorem: "C06_fresh_nonces_distinct"})
+		}
 		if rep > 0 || total != 16*per {
 			c.fail(failure{Op: "nonce", What: "library-chosen nonces repeat across fresh messages encrypted by parallel callers", Input: fmt.Sprintf("alg=%d goroutines=16 messages=%d", alg, total), Observed: fmt.Sprintf("%d repeats", rep), Expected: fmt.Sprintf("0 repeats over %d messages", 16*per), Theorem: "C06_fresh_nonces_distinct"})
 		}
